@@ -482,7 +482,12 @@ func tornFamily(self, base string, h []op, step int, jobs *[]func()) *int64 {
 				cuts = append(cuts, p)
 			}
 			cuts = append(cuts, hi-1, lo+1)
+			seenCut := map[int]bool{}
 			for _, p := range cuts {
+				if seenCut[p] || p < lo || p > hi {
+					continue // each cut once: two jobs on one directory name would remove each other's image
+				}
+				seenCut[p] = true
 				for _, prefix := range []bool{true, false} {
 					p, prefix := p, prefix
 					*jobs = append(*jobs, func() {
